@@ -84,10 +84,10 @@ type Case struct {
 // fake host / network
 
 type heldNotif struct {
-	disc           bool
-	p              int
-	gen            int
-	notifees       []network.Notifiee
+	disc         bool
+	p            int
+	gen          int
+	notifees     []network.Notifiee
 	firedStopped bool // Stop() had already returned when it was fired
 }
 
@@ -359,9 +359,17 @@ func (h *fakeHost) Connect(ctx context.Context, pi peer.AddrInfo) error {
 		e.sameInstant[p] = 0
 	}
 	e.lastDialAt[p] = now
-	tripped := e.sameInstant[p] >= 3
-	if tripped {
+	if e.sameInstant[p] >= 3 {
+		// break the zero-delay loop (virtual time cannot advance while it spins): report,
+		// then pretend the peer is connected so that the service clears its timer
 		e.failUnknown("backoff: 4 reconnect attempts for peer %d at the same instant (delay 0)", p)
+		e.dials = append(e.dials, dialRec{p, now, "tripwire"})
+		if e.conns[p] == 0 {
+			e.conns[p] = 1
+		}
+		e.update(p)
+		e.mu.Unlock()
+		return nil
 	}
 
 	var out Outcome
@@ -371,9 +379,6 @@ func (h *fakeHost) Connect(ctx context.Context, pi peer.AddrInfo) error {
 		out = e.c.Peers[p].Dials[k]
 	} else {
 		out = Outcome{Kind: e.c.Peers[p].Tail}
-	}
-	if tripped {
-		out = Outcome{Kind: "ok"} // break the zero-delay loop
 	}
 	e.dials = append(e.dials, dialRec{p, now, out.Kind})
 	if out.DelayMs > 0 {
@@ -823,14 +828,14 @@ func sample(c Case) any {
 
 var spec = kit.Spec[Case]{
 	Prop: "C46", Name: "main",
-	Rule: "peering service in a synctest bubble on a fake host: 1..3 peers with scripted dial outcomes (fail / ok / ok-then-drop-before-Connect-returns, optional dial duration), script of <=~30 AddPeer/RemovePeer/Start/Stop/external connect/disconnect/advance(<=11 min)/soak, Connected/Disconnected notifications optionally held and delivered later (also after Stop); safety: no Connect starts after Stop/RemovePeer returned; progress: every disconnected, fully notified peer of a running service is dialled within 10 min and never with delay 0; non-trivial = a notification is held across or delivered after Stop/RemovePeer, Stop/RemovePeer during a dial, a connect-then-drop, or >=3 consecutive failed dials",
+	Rule:  "peering service in a synctest bubble on a fake host: 1..3 peers with scripted dial outcomes (fail / ok / ok-then-drop-before-Connect-returns, optional dial duration), script of <=~30 AddPeer/RemovePeer/Start/Stop/external connect/disconnect/advance(<=11 min)/soak/advance-until-a-dial-is-in-flight/release, Connected/Disconnected notifications optionally held and delivered later (also after Stop); safety: no Connect starts after Stop/RemovePeer returned; progress: every disconnected, fully notified peer of a running service is dialled within 10 min and never with delay 0; non-trivial = a notification is held across or delivered after Stop/RemovePeer, Stop/RemovePeer during a dial, a connect-then-drop, or >=3 consecutive failed dials",
 	Quick: 1500, Thorough: 12000,
 	Gen: gen, Run: run, Journal: true, Sample: sample,
 }
 
 var specBackoff = kit.Spec[Case]{
 	Prop: "C46", Name: "backoff",
-	Rule: "1..3 peers whose dials all fail (optionally one success after 0..40 failures, then an external drop), service soaked for up to 108 steps of 10 min + 1 s: every step must contain a dial of every disconnected peer, no inter-dial delay may exceed 10 min or be 0, nothing may panic; non-trivial = >=3 consecutive failures (classes show >=20 and >=100)",
+	Rule:  "1..3 peers whose dials all fail (optionally one success after 0..40 failures, then an external drop), service soaked for up to 108 steps of 10 min + 1 s: every step must contain a dial of every disconnected peer, no inter-dial delay may exceed 10 min or be 0, nothing may panic; non-trivial = >=3 consecutive failures (classes show >=20 and >=100)",
 	Quick: 150, Thorough: 1200,
 	Gen: genBackoff, Run: run, Journal: true, Sample: sample,
 }
